@@ -349,7 +349,14 @@ def run_case(case):
             was_loaded = list(loaded)
             del nested[:]
             if cc and cur is not None:
-                loaded[cur] = False
+                if cur == i and loaded[i] and hs[i].values \
+                        and hs[i].values[-1] is not loop.current_world:
+                    # the handle of the world being left already holds
+                    # ANOTHER world (it was emptied and loaded again
+                    # meanwhile): that one is entered, nothing is cleared
+                    res.stats['current_handle_already_reloaded'] += 1
+                else:
+                    loaded[cur] = False
             if cn:
                 loaded[i] = False
             expect_load = 0 if loaded[i] else 1
